@@ -196,7 +196,9 @@ class Check:
         broken = []
         if unobserved:
             broken.append(f"deciding monitors observed nothing: {unobserved}")
-        if self.evaluations and len(self.inconclusive) > 0.05 * max(self.evaluations, 1):
+        if getattr(self, "max_inconclusive", None) is not None and len(self.inconclusive) > self.max_inconclusive:
+            broken.append(f"{len(self.inconclusive)} inconclusive cases (this check tolerates {self.max_inconclusive})")
+        elif self.evaluations and len(self.inconclusive) > 0.05 * max(self.evaluations, 1):
             broken.append(f"{len(self.inconclusive)} inconclusive of {self.evaluations} cases")
         if len(self.nontrivial) < min_nontrivial:
             broken.append(f"only {len(self.nontrivial)} distinct non-trivial cases")
